@@ -121,6 +121,29 @@ fn c19_exec(plan: &Value, t: &mut Trials) -> RunReport {
     crate::cterm::exec(&plan, t)
 }
 
+fn c05_gen(seed: u64, run: u64, tier: Tier) -> Value {
+    serde_json::to_value(crate::cmaint::generate05(seed, run, tier)).unwrap()
+}
+fn c05_exec(plan: &Value, t: &mut Trials) -> RunReport {
+    let plan: crate::cmaint::Plan05 = serde_json::from_value(plan.clone()).expect("bad plan");
+    crate::cmaint::exec05(&plan, t)
+}
+fn c06_gen(seed: u64, run: u64, tier: Tier) -> Value {
+    serde_json::to_value(crate::cmaint::generate06(seed, run, tier)).unwrap()
+}
+fn c06_exec(plan: &Value, t: &mut Trials) -> RunReport {
+    let plan: crate::cmaint::Plan06 = serde_json::from_value(plan.clone()).expect("bad plan");
+    crate::cmaint::exec06(&plan, t)
+}
+
+fn c07_gen(seed: u64, run: u64, tier: Tier) -> Value {
+    serde_json::to_value(crate::ccorrupt::generate(seed, run, tier)).unwrap()
+}
+fn c07_exec(plan: &Value, t: &mut Trials) -> RunReport {
+    let plan: crate::ccorrupt::Plan = serde_json::from_value(plan.clone()).expect("bad plan");
+    crate::ccorrupt::exec(&plan, t)
+}
+
 const MODEL_RULE: &str = "histories = seeded sequences of public-API queries (node/edge/value/alias/index inserts, updates, removals by id, alias and search, explicit transactions with a seeded abort point) executed on one of the six database variants over SimFs, half of them interleaved with clean restarts (only durable state survives), reopening with another file-backed variant, optimize_storage and shrink_to_fit, plus benign I/O noise and the forced contended-read path; evaluations = points at which the complete observable state (every read query over every element, alias, index and the elements search, plus slice/selection probes) was compared with the abstract model; distinct_nontrivial = distinct histories (program hash) containing at least one removal and then either an id reuse or a hash-table rehash (probe)";
 const MODEL_ASSUME: &[&str] = &[
     "the model takes new element ids from the database's answer (checking sign and freshness) and search targets from the database's own search result, so it carries no id-allocation or search semantics",
@@ -216,6 +239,66 @@ pub fn all() -> Vec<CheckDef> {
         real: DB_REAL,
         stub: &["disk: in-memory SimFs", "StorageData: counting pass-through wrapper (public DbImpl::with_data seam)"],
         eval_unit: "queries executed under the step budget",
+    });
+    v.push(CheckDef {
+        id: "C05",
+        level: "exploration",
+        generate: c05_gen,
+        exec: c05_exec,
+        steps: "/steps",
+        runs: |t| match t {
+            Tier::Quick => 3000,
+            Tier::Thorough => 300_000,
+        },
+        wall_cap_s: |t| match t {
+            Tier::Quick => 150,
+            Tier::Thorough => 1500,
+        },
+        rule: "histories = seeded query histories interleaved with maintenance events: clean restart (only durable state survives), reopening with another file-backed variant, optimize_storage, shrink_to_fit on SimFs; and, on real scratch files (std::fs::copy/rename are not behind the seam), backup + opening the backup with any variant (the in-memory variant via its backup file), copy, rename + reopen under the new name; evaluations = (maintenance event, resulting handle) pairs whose extended dump (every read query plus the ordered result of breadth-first and depth-first traversals from and to every node, ids included) was compared order-sensitively with the dump taken immediately before the event, while the reference model keeps running across the event; distinct_nontrivial = those on a non-empty database, per distinct (program hash, event)",
+        assumptions: &["fault-free: restarts are clean; crash during maintenance is not part of the statement", "backup/copy/rename run on real files under /verif/target/tmp (removed after the run)"],
+        real: DB_REAL,
+        stub: &["disk: in-memory SimFs (restart/optimize/shrink/variant-switch configurations); real scratch files for backup/copy/rename configurations"],
+        eval_unit: "(maintenance event, handle) comparisons",
+    });
+    v.push(CheckDef {
+        id: "C06",
+        level: "exploration",
+        generate: c06_gen,
+        exec: c06_exec,
+        steps: "/steps",
+        runs: |t| match t {
+            Tier::Quick => 1500,
+            Tier::Thorough => 150_000,
+        },
+        wall_cap_s: |t| match t {
+            Tier::Quick => 150,
+            Tier::Thorough => 1500,
+        },
+        rule: "one seeded query history executed in lock-step on DbMemory, DbFile, Db, DbAny(memory), DbAny(file), DbAny(mapped) (file-backed ones on separate SimFs paths, with benign I/O noise and the forced contended-read path); evaluations = steps after which success/failure, error text and returned ids of every variant were compared, and every n-th step also the extended dumps (all read queries + ordered traversals); distinct_nontrivial = dump comparisons on a non-empty database per distinct (program hash, step)",
+        assumptions: &["fault-free configuration", "result equality is judged on success/failure, error description, returned element ids and the complete read-back, not on internal sizes"],
+        real: DB_REAL,
+        stub: FS_STUB,
+        eval_unit: "lock-step steps compared across six variants",
+    });
+    v.push(CheckDef {
+        id: "C07",
+        level: "exploration",
+        generate: c07_gen,
+        exec: c07_exec,
+        steps: "/muts",
+        runs: |t| match t {
+            Tier::Quick => 700,
+            Tier::Thorough => 60_000,
+        },
+        wall_cap_s: |t| match t {
+            Tier::Quick => 150,
+            Tier::Thorough => 1700,
+        },
+        rule: "base images = the simulated disk after a seeded short history, either closed cleanly or as a crash snapshot with a live recovery log; faults = stored-byte mutations biased to structure (record index/size fields, the root index record, vector length prefixes, value-type bytes): 1-8 bit flips, truncation, an aligned 8-byte field overwritten with 0/1/len±1/2^32/2^63/u64::MAX, zero/0xFF/random fills, a record header copied over another, log removed / garbage / forged records with huge positions and lengths, wholly random files; evaluations = (mutated image, constructor) trials: Db::new and DbFile::new over SimFs (DbMemory::new on a real scratch copy in 1/6 of the runs), then every read query; a panic is caught and reported with its site, an abort or a single allocation above 96 MiB kills the worker and is attributed to the trial by the supervisor; distinct_nontrivial = trials whose mutation changed the image and whose outcome differs from the unmutated image's (the loader demonstrably read the damaged bytes)",
+        assumptions: &["a hang (3,000,000 storage calls without returning) is recorded as an observation, not a C07 violation: the statement covers panics, aborts and enormous allocations", "the simulated disk refuses files above 64 MiB (EFBIG), as a small real disk would"],
+        real: DB_REAL,
+        stub: FS_STUB,
+        eval_unit: "(mutated image, constructor) trials",
     });
     v.push(model_def("C08", c08_gen, c08_exec));
     v.push(model_def("C09", c09_gen, c09_exec));
